@@ -534,6 +534,9 @@ class Calls(object):
                 has = self.fx.lib.str_contains(recv.e, args[0].e)
                 st.assume(z3.Implies(z3.And(has, args[1].e >= 1), ln >= 2))
                 st.assume(z3.Implies(z3.Not(has), ln == 1))
+                # each of two pieces is strictly shorter than the string (the separator is not empty)
+                o_ = t.ops(cx)
+                st.assume(z3.Implies(ln >= 2, z3.And(cx.strlen(o_["nth"](r, 0)) < cx.strlen(recv.e), cx.strlen(o_["nth"](r, 1)) < cx.strlen(recv.e))))
             elif len(args) == 1:
                 has = self.fx.lib.str_contains(recv.e, args[0].e)
                 st.assume(has == (ln >= 2))
